@@ -48,6 +48,8 @@ def check_c14(case, stats):
   data = gen.Data(case['desc'])
   d = data.d
   init = gen.spd_from_seed(d, case['aseed']) if case['init'] == 'array' else case['init']
+  if case['init'] == 'array' and case['aseed'] % 2 == 0:
+    init = np.asfortranarray(init)          # same matrix, column-major memory layout
   tol = 10.0 ** case['logtol']
   params = dict(init=init, max_iter=case['max_iter'], max_proj=2000, tol=tol, diagonal=case['diagonal'],
                 diagonal_c=10.0 ** case['logc'], random_state=case['seed'])
